@@ -2,6 +2,7 @@ package props
 
 import (
 	"fmt"
+	"math"
 	"reflect"
 	"regexp"
 	"strings"
@@ -112,6 +113,13 @@ func c18Exprs(thorough bool) (ints, bools, strs []string) {
 	for i := 0; i+1 < nb && i < 200; i += 2 {
 		bools = append(bools, "("+bools[i]+")&&("+bools[i+1]+")", "("+bools[i]+")||("+bools[i+1]+")", "!("+bools[i]+")")
 	}
+	// division (always a float in the expression language): whole results, also large ones, must
+	// reach an integer field; non-whole results have no integer to be (outside the domain)
+	for _, a := range []string{"1", "2", "3", "${n1}", "${n2}", "2000000", "(${n1}*1000000)", "(${n2}*3000000)", "123456789"} {
+		for _, b := range []string{"1", "2", "${n1}", "${n2}"} {
+			ints = append(ints, "("+a+"/"+b+")", "(("+a+"/"+b+")+1)", "(("+a+"/"+b+")*${n2})")
+		}
+	}
 	// placeholders nested in a placeholder's key or default, inside an expression
 	for _, nl := range []string{"${n${k}}", "${zz:${n1}}", "${n${zz:1}}", "${zz:${n${k}}}"} {
 		ints = append(ints, nl, "("+nl+"+1)", "("+nl+"*${n2})", "(${n1}-"+nl+")", "("+nl+"+"+nl+")")
@@ -164,6 +172,12 @@ func c18Expr(c *core.Ctx) {
 	})
 }
 
+// c18NotAnInt: a float result that no int field can hold exactly.
+func c18NotAnInt(v any) bool {
+	f, ok := v.(float64)
+	return ok && (f != math.Trunc(f) || math.Abs(f) >= 1<<53)
+}
+
 func c18ExprOne(c *core.Ctx, cs c18ExprCase, types map[string]reflect.Type) {
 	{
 		cfg := c18Cfgs[cs.Cfg]
@@ -186,6 +200,8 @@ func c18ExprOne(c *core.Ctx, cs c18ExprCase, types map[string]reflect.Type) {
 		case o.Panic != "" || o.Abort != "":
 			c.Outcome("panic")
 			c.Report(key, "panic", desc+": "+o.Panic+o.Abort, cs)
+		case werr == nil && cs.Typ == "int" && c18NotAnInt(want):
+			c.Outcome("outside-domain(result is not an integer)")
 		case werr != nil && o.Err == nil:
 			c.Outcome("error-swallowed")
 			c.Report(key, "error-swallowed", fmt.Sprintf("%s: direct evaluation of the substituted text fails (%v) but start-up succeeded with %#v", desc, werr, got), cs)
